@@ -24,6 +24,29 @@ class It:
         return f"It({self.id})"
 
 
+class EqIt(It):
+    """value-like items: distinct objects that compare equal (two parts of the same type)"""
+
+    def __eq__(self, other):
+        return isinstance(other, EqIt)
+
+    def __hash__(self):
+        return 11
+
+
+class FalsyIt(It):
+    """an item whose truth value is False (an empty container travelling through the line)"""
+
+    def __bool__(self):
+        return False
+
+    def __len__(self):
+        return 0
+
+
+ITEM_CLASSES = {"plain": It, "equal": EqIt, "falsy": FalsyIt}
+
+
 class Tok:
     __slots__ = ("kind", "ev", "prio", "seq", "proc", "state", "theta", "bound", "granted_seen")
 
@@ -422,6 +445,7 @@ class Harness:
         self.reported = set()
         self.in_kstep = False
         self.early = False
+        self.item_kind = "plain"
         self.polls = False
         self.in_poll = False
         self.polled_once = False
@@ -442,6 +466,8 @@ class Harness:
             fl.append("cp")
         if self.two_procs:
             fl.append("2p")
+        if self.item_kind != "plain":
+            fl.append({"equal": "eq", "falsy": "falsy"}[self.item_kind])
         return f"{label}@{self.ad.name}[{','.join(fl)}]"
 
     def fail(self, label, info=None):
@@ -686,7 +712,7 @@ class Harness:
 
     def do_put(self, t, delay=None, key=None):
         """well-formed put with a granted token by its owner"""
-        obj = It(f"i{self.item_seq}", key)
+        obj = ITEM_CLASSES[self.item_kind](f"i{self.item_seq}", key)
         self.item_seq += 1
         if delay is None:
             delay = self.ad.new_delay(self)
@@ -1045,7 +1071,7 @@ def _prefix_arrivals(h, N):
 
 
 def scenario(store, family, N=3, K=2, oracles=("C01", "C02", "C04", "C05", "C06"), cap_max=None, cap_fixed=None,
-             sym_prio=False, R2=2, USE=True, TR=True, twin=False, RMAX=9, S=2, EARLY=False, DRAIN=True, PROCS=1, POLL=False):
+             sym_prio=False, R2=2, USE=True, TR=True, twin=False, RMAX=9, S=2, EARLY=False, DRAIN=True, PROCS=1, POLL=False, ITEMS="plain"):
     """returns fn(ctx) exploring prefix(family, N) followed by K free calls on the given store."""
     def fn(ctx):
         ad = adapter(store)
@@ -1057,6 +1083,7 @@ def scenario(store, family, N=3, K=2, oracles=("C01", "C02", "C04", "C05", "C06"
         h = Harness(ctx, ad, oracles, cap_max=cm, cap_fixed=cap_fixed, two_procs=two,
                     sym_prio=sym_prio or family.startswith("prio"))
         h.early = EARLY
+        h.item_kind = ITEMS
         # POLL: can_put()/can_get() of the edge are called between any two calls of the history (they must be free of side effects)
         h.polls = (POLL if POLL == "one" else bool(POLL)) if getattr(ad, "edge", False) else False
         if h.polls:
